@@ -135,7 +135,23 @@ type runnablePipeline struct {
 	t                *tomb.Tomb
 	backoff          *backoff.Backoff
 	recoveryAttempts *atomic.Int64
+
+	// stopRequested is set by stopGraceful, before it asks the nodes to stop,
+	// to mark this run as one that was deliberately asked to stop: by a user
+	// (stopRequestedByUser) or by a graceful shutdown of Conduit
+	// (stopRequestedByShutdown). runPipeline's cleanup goroutine checks it: a
+	// transient (non-fatal) error that surfaces from the drain itself must
+	// finalize the run as stopped, never restart it through recoverPipeline
+	// out from under whoever just stopped it (pkg/lifecycle-poc does the same
+	// with intentionalStop / isGracefulShutdown). It lives on the run, so it
+	// never survives a restart.
+	stopRequested atomic.Int32
 }
+
+const (
+	stopRequestedByUser     int32 = 1
+	stopRequestedByShutdown int32 = 2
+)
 
 // ConnectorService can fetch and create a connector instance, and report when
 // every position/state write already queued for persistence has been
@@ -340,9 +356,19 @@ func (s *Service) stopGraceful(ctx context.Context, rp *runnablePipeline, reason
 		Str(log.PipelineIDField, rp.pipeline.ID).
 		Any(log.PipelineStatusField, rp.pipeline.GetStatus()).
 		Msg("gracefully stopping pipeline")
+	// mark the run as deliberately stopped before any node is asked to stop,
+	// see the stopRequested field doc
+	switch {
+	case reason == nil:
+		rp.stopRequested.Store(stopRequestedByUser)
+	case cerrors.Is(reason, pipeline.ErrGracefulShutdown):
+		rp.stopRequested.Store(stopRequestedByShutdown)
+	}
 	var errs []error
+	stoppable := 0
 	for _, n := range rp.n {
 		if node, ok := n.(stream.StoppableNode); ok {
+			stoppable++
 			// stop all pub nodes
 			s.logger.Trace(ctx).Str(log.NodeIDField, n.ID()).Msg("stopping node")
 			err := node.Stop(ctx, reason)
@@ -351,6 +377,11 @@ func (s *Service) stopGraceful(ctx context.Context, rp *runnablePipeline, reason
 				errs = append(errs, err)
 			}
 		}
+	}
+	if stoppable > 0 && len(errs) == stoppable {
+		// no node began stopping (e.g. the run is already dead and waits for
+		// its recovery restart): nothing was stopped on purpose
+		rp.stopRequested.Store(0)
 	}
 
 	return cerrors.Join(errs...)
@@ -989,6 +1020,19 @@ func (s *Service) runPipeline(ctx context.Context, rp *runnablePipeline) error {
 				// we use %+v to get the stack trace too
 				if err := s.pipelines.UpdateStatus(ctx, rp.pipeline.ID, pipeline.StatusDegraded, fmt.Sprintf("%+v", err)); err != nil {
 					return err
+				}
+			} else if requested := rp.stopRequested.Load(); requested != 0 || isGracefulShutdown.Load() {
+				// A transient error surfaced while the run was draining
+				// because a user, or Conduit shutting down, asked it to stop:
+				// finalize it as stopped, recovering would restart a pipeline
+				// that was just stopped on purpose.
+				err = nil
+				status := pipeline.StatusSystemStopped
+				if requested == stopRequestedByUser {
+					status = pipeline.StatusUserStopped
+				}
+				if updateErr := s.pipelines.UpdateStatus(ctx, rp.pipeline.ID, status, ""); updateErr != nil {
+					return updateErr
 				}
 			} else {
 				// try to recover the pipeline
